@@ -293,6 +293,9 @@ func (e *Ent) Render(withDump bool) string {
 // accept/reject outcome: as soon as the walk meets an LZF string, a float, a
 // stream, a module or module-aux it answers false; on any malformed or short
 // input inside the grammar it answers true (the model decides the outcome).
+// MaxVer: the highest snapshot version the parser under test accepts (the harness sets it from rdb.RdbVersion).
+var MaxVer = 13
+
 func Supported(f []byte) bool {
 	w := &walker{b: f}
 	return w.run()
@@ -427,8 +430,14 @@ func (w *walker) run() bool {
 	if len(w.b) < 9 {
 		return true
 	}
+	// header problems are decided by the model: with a header that is refused (magic, version) nothing behind it is walked
+	if !bytes.Equal(w.b[:5], []byte("REDIS")) {
+		return true
+	}
+	if v, err := strconv.ParseInt(string(w.b[5:9]), 10, 64); err != nil || v <= 0 || v > int64(MaxVer) {
+		return true
+	}
 	w.pos = 9
-	// header problems are decided by the model
 	for steps := 0; steps <= len(w.b); steps++ {
 		t := w.u8()
 		if w.bad {
